@@ -171,6 +171,7 @@ var c19Hook func(r *core.Run) core.Coverage // set by the govs-backed registry p
 
 func C19(args []string) {
 	r := core.Begin("C19", "model_checking", args)
+	r.WatchProgress(watchPeriod()) // the code under test runs in this process: a call that never returns must end the check
 	if p := replayArg(args); p != "" {
 		if b, _ := os.ReadFile(p); strings.Contains(string(b), `"choices"`) {
 			ExecGovs(append([]string{"C19"}, args...)) // a registry schedule: replayed by the govs binary
@@ -239,6 +240,7 @@ func C19(args []string) {
 	}
 	// registry / dispatch under concurrency: the govs binary explores all interleavings
 	bin := BuildGovs()
+	r.StopWatch() // the registry part runs in the other binary, under its own supervision
 	if died, kind, tail := r.RunForeign(bin, "C19", nil, 600e9); died {
 		core.Infra("C19 registry part failed (%s): %s", kind, core.Trunc(tail, 1500))
 	}
